@@ -23,6 +23,17 @@ def main():
         except SyntaxError:
             out["syntax_skipped"] += 1
             continue
+        if "route" in spec:
+            # exiting-entry leg: every with statement left normally, inspected at the exiting moment
+            try:
+                k, probs = G.exit_check(spec, src)
+            except BaseException as ex:
+                k, probs = 0, ["exit leg raised %r" % (ex,)]
+            out["exit_programs"] = out.get("exit_programs", 0) + 1
+            out["exit_inspections"] = out.get("exit_inspections", 0) + k
+            for p in probs[:2]:
+                out["problems"].append({"what": "exiting entry: " + p, "input": {"spec": spec, "source": src}})
+            continue
         if want_sites:
             try:
                 out["sites"][str(n)] = G.gen_sites(spec)
